@@ -94,6 +94,12 @@ def judge(ctx, cases, tag, shards=12):
         r = vlib.run_tlc(ctx, "SqlSemJudge", "SqlSemGen.cfg", workers=1, timeout=3000, tag="%s-%d" % (tag, n), files={"cases.ndjson": nd},
                          on_scn=lambda k, o: got.append(o), xss="256m")
         if r.status != "ok" or not got:
+            # a tool failure (seen once under heavy machine load: Java StackOverflowError in a shard that passes when run
+            # again): one more try with a larger thread stack before the run is given up as undecided
+            got.clear()
+            r = vlib.run_tlc(ctx, "SqlSemJudge", "SqlSemGen.cfg", workers=1, timeout=3000, tag="%s-%d-again" % (tag, n), files={"cases.ndjson": nd},
+                             on_scn=lambda k, o: got.append(o), xss="1g")
+        if r.status != "ok" or not got:
             raise vlib.Undecided("SqlSemJudge failed (shard %d)\n%s" % (n, "\n".join(r.out[-25:])))
         if got[0]["n"] != len(part):
             raise vlib.Undecided("SqlSemJudge read %d of %d cases" % (got[0]["n"], len(part)))
